@@ -15,24 +15,27 @@ Plug(nil, l) == [nil |-> nil, l |-> l]
 P1 == [src |-> "short", cfg |-> "kv"]
 P2 == [src |-> "other", cfg |-> "null"]
 P3 == [src |-> "other2", cfg |-> "deep_v"]
+P4 == [src |-> "short", cfg |-> "lit:alpine"]          \* a plugin whose whole config is a bare scalar
+P5 == [src |-> "other", cfg |-> "lit:x"]
 StepEnvs == {Env(TRUE, <<>>), Env(FALSE, <<>>), Env(FALSE, ("A" :> "1")), Env(FALSE, ("A" :> "1") @@ ("C" :> "3"))}
-PluginLists == {Plug(TRUE, <<>>), Plug(FALSE, <<>>), Plug(FALSE, <<P1>>), Plug(FALSE, <<P1, P2>>), Plug(FALSE, <<P3>>)}
-Matrices == {"nil", "empty", "list_ab", "adj_base"}
+PluginLists == {Plug(TRUE, <<>>), Plug(FALSE, <<>>), Plug(FALSE, <<P1>>), Plug(FALSE, <<P1, P2>>), Plug(FALSE, <<P3>>),
+                Plug(FALSE, <<P4>>), Plug(FALSE, <<P4, P5>>)}
+Matrices == {"nil", "empty", "list_ab", "adj_base", "setup_os"}       \* setup_os: exactly one NAMED dimension
 PEnvs == {<<>>, ("A" :> "pa"), ("A" :> "pa") @@ ("B" :> "pb"), ("B" :> "") }
 Keys == {[pair |-> "K1", alg |-> "EdDSA"], [pair |-> "K1", alg |-> "ES512"], [pair |-> "K1", alg |-> "PS512"], [pair |-> "K1", alg |-> "ES256"]}
 
 Kinds == { "none",
   \* semantic: content
   "cmd", "env_add", "env_remove", "env_change", "env_rename",
-  "plug_add", "plug_remove", "plug_reorder", "plug_source", "plug_config", "plug_config_deep", "plug_null_vs_nonempty",
-  "matrix_add", "matrix_remove", "matrix_setup_value", "matrix_adj_with", "matrix_adj_skip", "matrix_adj_extra",
+  "plug_add", "plug_remove", "plug_reorder", "plug_source", "plug_config", "plug_config_deep", "plug_config_scalar", "plug_null_vs_nonempty",
+  "matrix_add", "matrix_remove", "matrix_setup_value", "matrix_adj_with", "matrix_adj_skip", "matrix_adj_extra", "matrix_dim_rename", "matrix_dim_value", "matrix_dim_anon",
   "repo", "penv_value", "penv_removed", "penv_shadowed",
   \* semantic: record and key
   "rec_alg", "fields_drop_mandatory", "fields_drop_env", "fields_add_env", "fields_add_unknown", "fields_empty",
   "value_splice", "value_bitflip", "key_other_same_alg", "key_other_alg", "keyset_without_signer", "keyset_empty", "plug_source_suffix",
   \* non-semantic
   "env_nil_vs_empty", "plugins_nil_vs_empty", "matrix_nil_vs_empty", "plug_source_spelling", "plug_cfg_empty_vs_null",
-  "venv_extra_unsigned", "fields_permuted", "fields_duplicate", "keyset_signer_plus_others" }
+  "venv_extra_unsigned", "venv_extra_fieldname", "fields_permuted", "fields_duplicate", "keyset_signer_plus_others" }
 SetPlugin(p, i, x) == [p EXCEPT !.l[i] = x]
 \* the presented content / env for a mutation kind; NA when the kind does not apply to this step
 NA == [na |-> TRUE]
@@ -49,26 +52,31 @@ MutContent(o, kind) ==
       [] kind = "plug_source_suffix" -> IF Len(o.plugins.l) > 0 /\ o.plugins.l[1].src = "short" THEN [o EXCEPT !.plugins = SetPlugin(o.plugins, 1, [src |-> "suffixed", cfg |-> o.plugins.l[1].cfg])] ELSE NA
       [] kind = "plug_config" -> IF Len(o.plugins.l) > 0 /\ o.plugins.l[1].cfg = "kv" THEN [o EXCEPT !.plugins = SetPlugin(o.plugins, 1, [src |-> o.plugins.l[1].src, cfg |-> "kw"])] ELSE NA
       [] kind = "plug_config_deep" -> IF Len(o.plugins.l) > 0 /\ o.plugins.l[1].cfg = "deep_v" THEN [o EXCEPT !.plugins = SetPlugin(o.plugins, 1, [src |-> o.plugins.l[1].src, cfg |-> "deep_w"])] ELSE NA
-      [] kind = "plug_null_vs_nonempty" -> IF Len(o.plugins.l) = 2 THEN [o EXCEPT !.plugins = SetPlugin(o.plugins, 2, [src |-> o.plugins.l[2].src, cfg |-> "bfalse"])] ELSE NA
+      [] kind = "plug_config_scalar" -> IF Len(o.plugins.l) > 0 /\ o.plugins.l[1].cfg = "lit:alpine" THEN [o EXCEPT !.plugins = SetPlugin(o.plugins, 1, [src |-> o.plugins.l[1].src, cfg |-> "lit:debian"])] ELSE NA
+      [] kind = "plug_null_vs_nonempty" -> IF Len(o.plugins.l) = 2 /\ o.plugins.l[2].cfg = "null" THEN [o EXCEPT !.plugins = SetPlugin(o.plugins, 2, [src |-> o.plugins.l[2].src, cfg |-> "bfalse"])] ELSE NA
       [] kind = "matrix_add" -> IF MatrixCanon[o.matrix] = "NONE" THEN [o EXCEPT !.matrix = "list_ab"] ELSE NA
       [] kind = "matrix_remove" -> IF MatrixCanon[o.matrix] # "NONE" THEN [o EXCEPT !.matrix = "nil"] ELSE NA
       [] kind = "matrix_setup_value" -> IF o.matrix = "list_ab" THEN [o EXCEPT !.matrix = "list_ac"] ELSE NA
       [] kind = "matrix_adj_with" -> IF o.matrix = "adj_base" THEN [o EXCEPT !.matrix = "adj_with2"] ELSE NA
       [] kind = "matrix_adj_skip" -> IF o.matrix = "adj_base" THEN [o EXCEPT !.matrix = "adj_skip"] ELSE NA
       [] kind = "matrix_adj_extra" -> IF o.matrix = "adj_base" THEN [o EXCEPT !.matrix = "adj_extra"] ELSE NA
+      [] kind = "matrix_dim_rename" -> IF o.matrix = "setup_os" THEN [o EXCEPT !.matrix = "dim_arch"] ELSE NA       \* same values under another dimension name
+      [] kind = "matrix_dim_value" -> IF o.matrix = "setup_os" THEN [o EXCEPT !.matrix = "setup_os2"] ELSE NA
+      [] kind = "matrix_dim_anon" -> IF o.matrix = "setup_os" THEN [o EXCEPT !.matrix = "list_linux"] ELSE NA         \* same values, anonymous dimension
       [] kind = "repo" -> [o EXCEPT !.repo = "https://example.com/other.git"]
       [] kind = "penv_shadowed" -> IF "B" \notin DOMAIN o.env.m THEN [o EXCEPT !.env = Env(FALSE, ("B" :> "pb") @@ o.env.m)] ELSE NA
       [] kind = "env_nil_vs_empty" -> IF DOMAIN o.env.m = {} THEN [o EXCEPT !.env = Env(~o.env.nil, <<>>)] ELSE NA
       [] kind = "plugins_nil_vs_empty" -> IF Len(o.plugins.l) = 0 THEN [o EXCEPT !.plugins = Plug(~o.plugins.nil, <<>>)] ELSE NA
       [] kind = "matrix_nil_vs_empty" -> IF o.matrix = "nil" THEN [o EXCEPT !.matrix = "empty"] ELSE IF o.matrix = "empty" THEN [o EXCEPT !.matrix = "nil"] ELSE NA
       [] kind = "plug_source_spelling" -> IF Len(o.plugins.l) > 0 /\ o.plugins.l[1].src = "short" THEN [o EXCEPT !.plugins = SetPlugin(o.plugins, 1, [src |-> "canon", cfg |-> o.plugins.l[1].cfg])] ELSE NA
-      [] kind = "plug_cfg_empty_vs_null" -> IF Len(o.plugins.l) = 2 THEN [o EXCEPT !.plugins = SetPlugin(o.plugins, 2, [src |-> o.plugins.l[2].src, cfg |-> "empty"])] ELSE NA
+      [] kind = "plug_cfg_empty_vs_null" -> IF Len(o.plugins.l) = 2 /\ o.plugins.l[2].cfg = "null" THEN [o EXCEPT !.plugins = SetPlugin(o.plugins, 2, [src |-> o.plugins.l[2].src, cfg |-> "empty"])] ELSE NA
       [] OTHER -> o
 MutVenv(penv, o, kind) ==
     CASE kind = "penv_value" -> IF DOMAIN penv \ DOMAIN o.env.m # {} THEN LET n == CHOOSE x \in DOMAIN penv \ DOMAIN o.env.m : TRUE IN [penv EXCEPT ![n] = "tampered"] ELSE NA
       [] kind = "penv_removed" -> IF DOMAIN penv \ DOMAIN o.env.m # {} THEN LET n == CHOOSE x \in DOMAIN penv \ DOMAIN o.env.m : TRUE IN [x \in DOMAIN penv \ {n} |-> penv[x]] ELSE NA
       [] kind = "penv_shadowed" -> IF "B" \in DOMAIN penv THEN penv ELSE NA
       [] kind = "venv_extra_unsigned" -> ("UNRELATED" :> "x") @@ penv
+      [] kind = "venv_extra_fieldname" -> ("command" :> "x") @@ ("plugins" :> "y") @@ ("repository_url" :> "z") @@ penv   \* unsigned variables NAMED like signed fields
       [] kind = "fields_add_env" -> ("UNRELATED" :> "x") @@ penv
       [] OTHER -> penv
 FieldOp(kind, signed) ==
